@@ -79,8 +79,18 @@ func iterateShared(fn subscription.IterateFn, options subscription.IterationOpti
 		if node == nil {
 			return true
 		}
+		// The Server MUST NOT match Topic Filters starting with a wildcard character (# or +) with
+		// Topic Names beginning with a $ character [MQTT-4.7.2-1]; this holds for the filter of a
+		// shared subscription too.
+		skip := func(sub *gmqtt.Subscription) bool {
+			return isSystemTopic(options.TopicName) && len(sub.TopicFilter) > 0 &&
+				(sub.TopicFilter[0] == '#' || sub.TopicFilter[0] == '+')
+		}
 		if options.ClientID != "" {
 			for _, v := range node[options.ClientID] {
+				if skip(v) {
+					continue
+				}
 				if !fn(options.ClientID, v) {
 					return false
 				}
@@ -88,6 +98,9 @@ func iterateShared(fn subscription.IterateFn, options subscription.IterationOpti
 		} else {
 			for clientID, subs := range node {
 				for _, v := range subs {
+					if skip(v) {
+						continue
+					}
 					if !fn(clientID, v) {
 						return false
 					}
